@@ -2404,6 +2404,21 @@ def sink_optional_uses_into_arms(fnode, counter):
                 sub = getattr(owner, fld, None)
                 if isinstance(sub, list) and sub and isinstance(sub[0], ast.stmt) and not isinstance(owner, (ast.FunctionDef, ast.AsyncFunctionDef, ast.ClassDef)):
                     setattr(owner, fld, rewrite(sub))
+        # v = None; if c: ..; v = E        ->   if c: ..; v = E  else: v = None        (v not mentioned by c nor earlier in the arm)
+        k = 0
+        while k + 1 < len(stmts):
+            a_, b_ = stmts[k], stmts[k + 1]
+            if isinstance(a_, ast.Assign) and len(a_.targets) == 1 and isinstance(a_.targets[0], ast.Name) and isinstance(a_.value, ast.Constant) and a_.value.value is None \
+                    and isinstance(b_, ast.If) and not b_.orelse and b_.body and isinstance(b_.body[-1], ast.Assign) and len(b_.body[-1].targets) == 1 \
+                    and isinstance(b_.body[-1].targets[0], ast.Name) and b_.body[-1].targets[0].id == a_.targets[0].id:
+                v_ = a_.targets[0].id
+                mentions = [x for part in [b_.test] + b_.body[:-1] + [b_.body[-1].value] for x in ast.walk(part) if isinstance(x, ast.Name) and x.id == v_]
+                if not mentions:
+                    b_.orelse = [a_]
+                    del stmts[k]
+                    changed = True
+                    continue
+            k += 1
         for i, st in enumerate(stmts):
             if not isinstance(st, ast.If) or i + 1 >= len(stmts):
                 continue
